@@ -44,10 +44,11 @@ ASSUMPTIONS = [
     "System V: counter values are limited to SEMVMX = 32767 (semctl SETVAL fails with ERANGE above): histories use initial values <= 300",
     "System V: not judged because the statements do not determine it (rules T1-T3, U1-U4 of tools/props/ipc_sysv.py): handles opened before a CREATE-mode open / owner free of their name; plain free of a CREATE-on-existing handle; removal of a segment at its last detach; plain free of the creating PShm handle while others are attached; owner handles of an earlier incarnation",
     "System V: SEM_UNDO gives back the units of a killed process; after a SIGKILL of a process with a non-zero balance on a counter its value is not judged until the counter is created again (K1); binding, sizes, bytes and the recovery sequence are judged",
-    "System V: the checks run as root (a READWRITE open of a segment created READONLY (mode 0444) needs CAP_IPC_OWNER)",
+    "System V: a READWRITE open of a segment created READONLY (mode 0444) needs CAP_IPC_OWNER: READONLY creators are exercised only when the check runs as root",
 ]
 
 HDR = os.path.join(pv.HARNESS, "sysv_tmpdir.h")
+ROOT = os.geteuid() == 0      # a segment created READONLY has mode 0444: only CAP_IPC_OWNER can then attach it READWRITE
 
 
 def build(cfg):
@@ -542,7 +543,7 @@ def gen_history(rng, chk, n, sem_w=1.0, shm_w=1.0, kills=True, inode_reuse=False
                 if h is None:
                     continue
                 nme = rng.randrange(NN)
-                ro = rng.random() < 0.2
+                ro = rng.random() < 0.2 and (ROOT or nme in reg.shm)
                 if nme in reg.shm:
                     real = reg.segsize[reg.shm[nme]]
                     size = rng.choice([0, real, max(1, real // 2), real + 1, 1, rng.choice(SIZES), real - 1 if real > 1 else 1, real + PAGE])
@@ -746,7 +747,8 @@ def run_c07(chk, cfg, basic):
     fam = Fam(exe)
     R = Runner(chk, fam, "C07")
     rng = chk.rng
-    R.run([prefilter(d) for d in list(basic) + C07_DIRECTED], batch=1)
+    directed = [d for d in list(basic) + C07_DIRECTED if ROOT or not any(o.endswith(" ro") for o in d)]
+    R.run([prefilter(d) for d in directed], batch=1)
     nr = 500 if thorough else 150
     rnd = [gen_history(rng, chk, rng.choice([8, 25, 60]), sem_w=0.2, shm_w=1.0) for _ in range(nr)]
     R.run(rnd, batch=10)
